@@ -18,7 +18,7 @@ SLOTS = {
     'as_graphviz', 'node', 'edges_of', 'add_terminal_node', 'edge',
     # flags
     'new_exact', 'new_relaxed', 'is_relaxed', 'is_marked', 'is_cutset', 'is_above_cutset', 'is_deleted', 'is_pruned_by_cache', 'set_exact',
-    'set_relaxed', 'set_marked', 'set_cutset', 'set_above_cutset', 'set_deleted', 'set_pruned_by_cache', 'test', 'set', 'add', 'remove',
+    'set_relaxed', 'set_marked', 'set_cutset', 'set_above_cutset', 'set_deleted', 'set_pruned_by_cache',
     # stores, fringes, heuristics
     'must_explore', 'get_threshold', 'update_threshold', 'clear_layer', 'clear', 'partial_cmp', 'cmp', 'is_dominated_or_insert',
     'push', 'pop', 'len', 'is_empty', 'process_action', 'position', 'compare_at_pos', 'bubble_up', 'bubble_down', 'parent', 'max_child_of',
